@@ -672,6 +672,14 @@ func (s *segment) IsDeleted() bool {
 	return s.deleted
 }
 
+// IsReplaced returns true if the segment has been replaced due to log
+// compaction or truncation.
+func (s *segment) IsReplaced() bool {
+	s.RLock()
+	defer s.RUnlock()
+	return s.replaced
+}
+
 type segmentScanner struct {
 	s  *segment
 	is *indexScanner
@@ -737,6 +745,10 @@ func newReverseSegmentScannerFromEnd(segment *segment) *reverseSegmentScanner {
 // Returns io.EOF when there are no more messages.
 func (s *reverseSegmentScanner) Scan() (messageSet, *entry, error) {
 	entry, err := s.ris.Scan()
+	if err == ErrSegmentClosed && s.s.IsReplaced() {
+		// The index was closed because the segment was replaced.
+		err = ErrSegmentReplaced
+	}
 	if err != nil {
 		return nil, nil, err
 	}
